@@ -4,7 +4,7 @@
 //! what lets the parent re-create the input a dead worker was decoding.
 
 use crate::eval::{Case, Expect, Kind, Outcome};
-use crate::refdec::{canonical_layout, ref_decode, Class, Ref};
+use crate::refdec::{canonical_layout, Class, Ref};
 use serde_json::{json, Value};
 use shuttle_engine::runtime::task::TaskId;
 use shuttle_engine::scheduler::{Schedule, ScheduleStep};
@@ -254,10 +254,9 @@ pub trait Sink {
     fn encode(&mut self, s: &Schedule) -> Option<String>;
     fn note_roundtrip(&mut self, s: &Schedule, printed: &str);
     /// Evaluate one case; returns the outcome when the case was actually executed.
-    fn case(&mut self, c: Case) -> Option<Outcome>;
+    fn case(&mut self, c: Case) -> Option<(Outcome, Ref)>;
     fn note_padding_only(&mut self, decoded_same: bool);
     fn machinery(&mut self, msg: String);
-    fn evaluating(&self) -> bool;
 }
 
 const NONHEX: [char; 8] = ['g', 'G', 'z', '-', ':', '/', '\u{e9}', '\u{ff11}'];
@@ -340,9 +339,9 @@ fn roundtrip_item(sink: &mut dyn Sink, s: &Schedule, d: Derive) {
         } else {
             Ok(())
         };
-        if sink.evaluating() {
-            let r = ref_decode(&input);
-            let agrees = match (&want, &r) {
+        let out = sink.case(Case { kind: Kind::Prefix, label: "prefix", input, expect: Expect::ByRef });
+        if let Some((_, r)) = &out {
+            let agrees = match (&want, r) {
                 (Ok(()), Ref::Valid(x)) => x == s,
                 (Err(c), Ref::Invalid(c2)) => c == c2,
                 _ => false,
@@ -357,9 +356,8 @@ fn roundtrip_item(sink: &mut dyn Sink, s: &Schedule, d: Derive) {
                 ));
             }
         }
-        let out = sink.case(Case { kind: Kind::Prefix, label: "prefix", input, expect: Expect::ByRef });
         if want.is_ok() {
-            if let Some(o) = out {
+            if let Some((o, _)) = out {
                 sink.note_padding_only(o == Outcome::SomeExpected);
             }
         }
@@ -542,9 +540,15 @@ fn family_long(tier: Tier, b: &Bounds, sink: &mut dyn Sink) {
     }
 }
 
-fn hdr_bases() -> Vec<Schedule> {
+fn hdr_bases(tier: Tier) -> Vec<Schedule> {
     let mut v = Vec::new();
-    for seed in seeds_all() {
+    let seeds = if tier.is_thorough() {
+        seeds_all()
+    } else {
+        // one seed per varint length 1, 2, 3, 5, 6, 9, 10 bytes
+        vec![0, 127, 128, 1 << 14, (1 << 35) - 1, 1 << 35, 1 << 56, 1 << 63, u64::MAX]
+    };
+    for seed in seeds {
         for steps in [
             vec![],
             vec![R],
@@ -562,9 +566,9 @@ fn hdr_bases() -> Vec<Schedule> {
     v
 }
 
-fn family_hdrsub(sink: &mut dyn Sink) {
+fn family_hdrsub(tier: Tier, sink: &mut dyn Sink) {
     const D: &[u8; 16] = b"0123456789abcdef";
-    for s in hdr_bases() {
+    for s in hdr_bases(tier) {
         if sink.begin() {
             if let Some(p) = sink.encode(&s) {
                 let h: String = p.chars().filter(|c| *c != '\n').collect();
@@ -625,18 +629,19 @@ fn family_width(sink: &mut dyn Sink) {
     }
 }
 
-fn family_length(sink: &mut dyn Sink) {
+fn family_length(tier: Tier, sink: &mut dyn Sink) {
     let mut lens: Vec<u64> = vec![1, 2, 3, 5, 8, 9, 16, 17, 24, 25, 64, 65, 127, 128, 129];
     for k in [14u32, 21, 26, 27, 28, 31, 32, 35, 42, 49, 56, 59, 60, 63] {
         lens.push((1u64 << k) - 1);
         lens.push(1u64 << k);
     }
     lens.push(u64::MAX);
+    let (widths, sizes): (&[u64], &[usize]) = if tier.is_thorough() { (&[1, 8, 64], &[0, 1, 2, 3, 8]) } else { (&[1, 64], &[0, 1, 8]) };
     for &len in &lens {
-        for w in [1u64, 8, 64] {
+        for &w in widths {
             if sink.begin() {
                 for pat in [0x00u8, 0xff] {
-                    for sz in [0usize, 1, 2, 3, 8] {
+                    for &sz in sizes {
                         sink.case(Case {
                             kind: Kind::LengthField,
                             label: "length-field",
@@ -709,8 +714,8 @@ pub fn run_family(f: Family, tier: Tier, sink: &mut dyn Sink) {
         Family::Long => family_long(tier, &b, sink),
         Family::Fixed => family_fixed(sink),
         Family::Magic => family_magic(sink),
-        Family::HdrSub => family_hdrsub(sink),
+        Family::HdrSub => family_hdrsub(tier, sink),
         Family::Width => family_width(sink),
-        Family::Length => family_length(sink),
+        Family::Length => family_length(tier, sink),
     }
 }
